@@ -1160,3 +1160,15 @@ pub open spec fn appended_ins(o: &Compiler, f: &Compiler, op: Opcode, operand: u
 pub open spec fn ends_with_ins(f: &Compiler, op: Opcode, operand: usize) -> bool {
     code(f).len() >= ilen(op) && code(f).subrange(code(f).len() - ilen(op), code(f).len() as int) == ins_bytes(op, seq![operand]) && sc(f).last_ins.opcode == op
 }
+
+// C04: a function literal leaves, in the enclosing scope, one load per captured (free) symbol - through the instruction of the symbol's
+// own scope and index, in the order the inner table recorded them - followed by Closure(function constant, number of captures)
+pub open spec fn loads_bytes(fs: Seq<Rc<Symbol>>, n: int) -> Seq<u8>
+    decreases n
+{
+    if n <= 0 { Seq::<u8>::empty() } else { loads_bytes(fs, n - 1) + ins_bytes(load_op(fs[n - 1].scope), seq![fs[n - 1].index]) }
+}
+pub open spec fn closure_at(o: &Compiler, f: &Compiler, fs: Seq<Rc<Symbol>>, idx: usize) -> bool {
+    code(f) == code(o) + loads_bytes(fs, fs.len() as int) + ins_bytes(Opcode::Closure, seq![idx, fs.len() as usize])
+}
+pub open spec fn closure_shape(o: &Compiler, f: &Compiler) -> bool { exists|fs: Seq<Rc<Symbol>>, idx: usize| #[trigger] closure_at(o, f, fs, idx) }
